@@ -7,6 +7,8 @@ import glob
 props = {}
 for path in sorted(glob.glob(os.path.join(V, "sim", "props", "*", "entry.json"))):
     e = json.load(open(path))
+    if not e.get("registered"):
+        continue  # still under construction / not validated yet
     props[e.get("id", os.path.basename(os.path.dirname(path)).upper())] = e
 na = json.load(open(os.path.join(V, "not_applicable.json")))
 listed = {x["property_id"] for x in na}
